@@ -86,6 +86,7 @@ def run(ctx):
     from . import callsigs as _cs
     from . import findings3 as _f3
     _f3.mutable_defaults(ctx, 'R20.11')
+    _cs.who_may_call_rule(ctx, 'R20.CS16')
     _cs.general_rules(ctx, 'R20', ['api.ParquetFile', 'writer.make_part_file', 'writer.make_row_group', 'core.read_row_group', 'core.read_row_group_arrays', 'writer.write_common_metadata', 'writer.consolidate_categories', 'util.metadata_from_many', 'compression'])
 
 
